@@ -303,6 +303,40 @@ def c07_like_key(chk, fn):
             detail = str(e)
     chk.check(ok, 'C17-R5', 'abacusnbody/analysis/tsc.py', Q, 'stripe key', detail,
               f'{detail or (unparse(keyst[0]) if keyst else None)}: stripe s must hold floor(x*P/box) == s with the last stripe closed above', node=keyst[0] if keyst else fn)
+    # floating-point discipline of the key: floor of x*P/box evaluated as (x * P) / box in double precision.  A factor P/box
+    # rounded beforehand (to the dtype of pos) misfiles particles that lie exactly on a stripe boundary (x=1500, box=2000, P=36:
+    # all exact, 27 expected, 26 obtained); fastmath licenses the compiler to turn the division back into such a multiplication.
+    if ok:
+        defs = {}
+        for s_ in fn.body:
+            if isinstance(s_, ast.Assign) and len(s_.targets) == 1 and isinstance(s_.targets[0], ast.Name):
+                defs.setdefault(s_.targets[0].id, []).append(s_.value)
+
+        class Inl(ast.NodeTransformer):
+            def visit_Name(self, n):
+                if isinstance(n.ctx, ast.Load) and len(defs.get(n.id, [])) == 1 and n.id not in ('dtype', 'npartition', 'boxsize', 'coord', 'nthread'):
+                    from ..core.srcmodel import clone
+                    return self.visit(clone(defs[n.id][0]))
+                return n
+        from ..core.srcmodel import clone
+        e = Inl().visit(clone(inner))
+        narrow = [c for c in ast.walk(e) if isinstance(c, ast.Call) and dotted(c.func) in ('dtype', 'np.float32', 'np.float16', 'np.single')]
+
+        def strip(x):
+            while isinstance(x, ast.Call) and dotted(x.func) in ('np.float64', 'float') and len(x.args) == 1:
+                x = x.args[0]
+            return x
+        e0 = strip(e)
+        shape = isinstance(e0, ast.BinOp) and isinstance(e0.op, ast.Div) and unparse(e0.right) == 'boxsize' and isinstance(strip(e0.left), ast.BinOp) \
+            and isinstance(strip(e0.left).op, ast.Mult) and 'npartition' in {unparse(strip(strip(e0.left).left)), unparse(strip(strip(e0.left).right))}
+        wide = any(isinstance(c, ast.Call) and dotted(c.func) in ('np.float64', 'float') for c in ast.walk(e))
+        fm = [d for d in fn.decorator_list if isinstance(d, ast.Call) and any(k.arg == 'fastmath' and not (isinstance(k.value, ast.Constant) and k.value.value is False) for k in d.keywords)]
+        chk.check(not narrow and shape and wide and not fm, 'C17-R5', 'abacusnbody/analysis/tsc.py', Q,
+                  'the key is floor((float64(x) * P) / box): one correctly rounded division, no pre-rounded factor, no fastmath', unparse(e)[:70],
+                  f'key argument {unparse(e)[:80]}: ' + ('contains a factor rounded to the working precision; ' if narrow else '') +
+                  ('' if shape else 'is not (x * npartition) / boxsize; ') + ('' if wide else 'is not evaluated in float64; ') +
+                  ('the kernel is compiled with fastmath, which may replace the division by a multiplication with a rounded reciprocal; ' if fm else '') +
+                  'a particle exactly on a stripe boundary (x=1500, box=2000, P=36) is filed one stripe too low', node=keyst[0], nontrivial=False)
 
 
 def _prefix_loop(fn):
